@@ -131,6 +131,20 @@ pub fn sched(a: &[u128]) -> Vec<u128> {
         })
         .collect();
     let t = BaoTree::new(data.len() as u64, BlockSize::from_chunk_log(bs));
+    if driver == 5 {
+        // sync::outboard into a pre-sized PreOrderMemOutboard, reading the blob through the scheduled reader
+        let mut src = data.clone();
+        if cut > 0 {
+            src.truncate(cut as usize - 1);
+        }
+        let mut rd = SchedReader::new(src, evs, fail);
+        let mut ob = bao_tree::io::outboard::PreOrderMemOutboard { root: bao_tree::blake3::Hash::from([0; 32]), tree: t, data: vec![0u8; t.outboard_size() as usize] };
+        let r = sync::outboard(&mut rd, t, &mut ob);
+        return match r {
+            Ok(h) => vec![0, digest(h.as_bytes()) as u128, ob.data.len() as u128, digest(&ob.data) as u128, rd.after_fail_calls as u128],
+            Err(e) => vec![1 + kind_code(e.kind()), 0, ob.data.len() as u128, digest(&ob.data) as u128, rd.after_fail_calls as u128],
+        };
+    }
     if driver == 4 {
         let mut src = data.clone();
         if cut > 0 {
